@@ -101,6 +101,9 @@ class Session:
         self.pool['P1'] = lentil.Pupil(amplitude=self.pool['A1'].copy(), opd=self.pool['O1'].copy(), mask=(m != 0).astype(int),
                                        pixelscale=0.5, focal_length=4.0)
         self.pool['W1'] = lentil.Wavefront(2.0 ** -7) * self.pool['P1']
+        # a wavefront that carries tilt from its creation, and a plane given by a mask only (scalar amplitude and OPD)
+        self.pool['W2'] = lentil.Wavefront(2.0 ** -7, tilt=[1e-4, -5e-5]) * self.pool['P1']
+        self.pool['P3'] = lentil.Pupil(mask=(m != 0).astype(int), pixelscale=0.5, focal_length=4.0)
 
     # -- recording -----------------------------------------------------------------------------------
     def call(self, name, fn, arg_ids, params, store=None):
@@ -158,6 +161,12 @@ class Session:
             ('Image', lambda: l.Image(amplitude=p['A1'], mask=p['M1']), ['A1', 'M1'], ()),
             ('multiply', lambda: l.Wavefront(2.0 ** -7) * p['P1'], ['P1'], (), 'W1'),
             ('multiply_tilt', lambda: p['W1'] * l.Tilt(x=1e-4, y=-2e-4), ['W1'], ()),
+            ('multiply_tilt', lambda: p['W2'] * l.Tilt(x=1e-4, y=-2e-4), ['W2'], ('w2',)),
+            ('multiply', lambda: p['W2'] * p['P3'], ['W2', 'P3'], ('w2p3',)),
+            ('propagate_dft', lambda: l.propagate_dft(p['W2'], pixelscale=2.0 ** -6, shape=(4, 5), oversample=2), ['W2'], (4, 5, 2)),
+            ('multiply', lambda: l.Wavefront(2.0 ** -7) * p['P3'], ['P3'], ('p3',)),
+            ('rescale_multiply', lambda: l.Wavefront(2.0 ** -7) * p['P3'].rescale(1.5), ['P3'], (1.5,)),
+            ('resample_multiply', lambda: l.Wavefront(2.0 ** -7) * p['P3'].resample(0.25), ['P3'], (0.25,)),
             ('propagate_dft', lambda: l.propagate_dft(p['W1'], pixelscale=2.0 ** -6, shape=(4, 5), oversample=2), ['W1'], (4, 5, 2)),
             ('propagate_dft', lambda: l.propagate_dft(p['W1'], pixelscale=2.0 ** -6, shape=(3, 3), prop_shape=(2, 3), oversample=1), ['W1'], (3, 3, 1)),
             ('propagate_fft', lambda: l.propagate_fft(p['W1'], pixelscale=2.0 ** -6, shape=(4, 4), oversample=2), ['W1'], (4, 4, 2)),
